@@ -28,7 +28,8 @@ SLens == {0, 1, 127, 128, 16383, 16384, 65535}
 ConnackPropPool ==
   {PQ(17, <<0, 0, 0, 60>>), PI(33, 20), PI(36, 1), PI(37, 0), PQ(39, <<0, 0, 4, 0>>), PS(18, F("assigned", 8)), PI(34, 7),
    PS(31, F("why~", 6)), PI(40, 0), PI(42, 0), PI(19, 120), PS(26, F("ri", 2)), PS(28, F("srv", 3)), PS(21, F("m", 1)), PS(22, F("d", 4))}
-ConnackSubsets == IF Thorough THEN SUBSET ConnackPropPool ELSE {S \in SUBSET ConnackPropPool : Cardinality(S) <= 2 \/ Cardinality(S) >= 14}
+ConnackSubsets == IF Thorough THEN {S \in SUBSET ConnackPropPool : Cardinality(S) <= 3 \/ Cardinality(S) >= 13}
+                  ELSE {S \in SUBSET ConnackPropPool : Cardinality(S) <= 2 \/ Cardinality(S) >= 14}
 ConnackReasons == {0, 128, 129, 130, 131, 132, 133, 134, 135, 136, 137, 138, 140, 144, 149, 151, 153, 154, 155, 156, 157, 159}
 ConnackCases ==
   UNION { UNION { { [Case0 EXCEPT !.t = "CONNACK", !.props = q, !.sp = sp, !.rc = 0] : q \in WithUps(p), sp \in BOOLEAN } : p \in Orders(S) } : S \in ConnackSubsets }
